@@ -20,6 +20,15 @@ fn fl3(r: (f64, f64, f64)) -> String {
     format!("ok {} {} {}", f(r.0), f(r.1), f(r.2))
 }
 
+/// the defining formula of F-beta from precision and recall
+fn fbeta(p: f64, r: f64, beta: f64) -> f64 {
+    if p + r > 0.0 {
+        (1.0 + beta * beta) * p * r / (beta * beta * p + r)
+    } else {
+        0.0
+    }
+}
+
 fn range_ok(o: &mut Outcome, r: (f64, f64, f64)) {
     for x in [r.0, r.1, r.2] {
         o.check(x.is_finite(), "metric value is not finite");
@@ -70,6 +79,7 @@ pub fn exec(op: &str, a: &[u64]) -> Result<Outcome, String> {
                     let fp = p.iter().zip(&t).filter(|(a, b)| **a && !**b).count() as f64;
                     let fnn = p.iter().zip(&t).filter(|(a, b)| !**a && **b).count() as f64;
                     o.check((res.1 - tp / (tp + fp).max(1.0)).abs() < 1e-12 && (res.2 - tp / (tp + fnn).max(1.0)).abs() < 1e-12, "binary F1 != defining formula");
+                    o.check((res.0 - fbeta(res.1, res.2, bn as f64 / bd as f64)).abs() < 1e-12, "binary F-beta != (1 + beta^2) P R / (beta^2 P + R)");
                     Ok(o)
                 }
                 Err(_) => {
@@ -147,6 +157,13 @@ pub fn exec(op: &str, a: &[u64]) -> Result<Outcome, String> {
                     }
                     if eqv(&p, &i) && !sa {
                         o.check(v == (0.0, 0.0, 0.0), "unchanged prediction has true positives");
+                    }
+                    if !sa {
+                        // micro averaging: the F-beta of the summed counts, i.e. of the reported precision and recall
+                        o.check((v.0 - fbeta(v.1, v.2, beta)).abs() < 1e-12, "micro F-beta != (1 + beta^2) P R / (beta^2 P + R) of the reported precision and recall");
+                    } else if ts.len() == 1 {
+                        // a single sequence: the sequence average is that sequence's value
+                        o.check((v.0 - fbeta(v.1, v.2, beta)).abs() < 1e-12, "sequence-averaged F-beta of one sequence != the F-beta of its precision and recall");
                     }
                     Ok(o)
                 }
